@@ -3,6 +3,7 @@
 package simrt
 
 import (
+	"context"
 	"fmt"
 	"sort"
 	"testing"
@@ -370,5 +371,40 @@ func TestAtomicsAreSchedulingPointsAndSynchronize(t *testing.T) {
 	})
 	if lost["[1]"] == 0 || lost["[2]"] == 0 {
 		t.Fatalf("atomic interleavings not explored: %v", lost)
+	}
+}
+
+func TestWithTimeoutOnSimClock(t *testing.T) {
+	res := runSeeds(t, 100, Policy{Kind: "uniform"}, func(out *[]string) {
+		ctx, cancel := WithTimeout(context.Background(), time.Minute)
+		defer cancel()
+		t0 := Now()
+		Select(false, CaseRecv(ctx.Done()))
+		*out = append(*out, fmt.Sprint(Since(t0), ctx.Err()))
+		ctx2, cancel2 := WithTimeout(context.Background(), time.Hour)
+		cancel2()
+		*out = append(*out, fmt.Sprint(ctx2.Err()))
+	})
+	if len(res) != 1 || res["[1m0s context deadline exceeded context canceled]"] != 100 {
+		t.Fatalf("timeout ctx: %v", res)
+	}
+}
+
+func TestSyncMapModel(t *testing.T) {
+	seen := map[string]bool{}
+	for seed := 0; seed < 100; seed++ {
+		Run(Config{Chooser: NewRandomChooser(uint64(seed), Policy{Kind: "uniform", MapMode: "shuffle"}, false)}, func() {
+			var m Map
+			m.Store("a", 1)
+			m.Store("b", 2)
+			m.Store("c", 3)
+			m.Delete("b")
+			s := ""
+			m.Range(func(k, v interface{}) bool { s += k.(string); return true })
+			seen[s] = true
+		})
+	}
+	if !seen["ac"] || !seen["ca"] || len(seen) != 2 {
+		t.Fatalf("sync.Map range orders: %v", seen)
 	}
 }
